@@ -20,6 +20,9 @@ var c04Probes = []struct{ name, body, params string }{
 	{"range-loops", "{for $i in range(2, 7, 2)}{$i}:{index($i)}{isLast($i) ? '.' : ','}{/for}|{for $i in range(0)}x{ifempty}empty{/for}|{for $i in range(3)}{$i}{isFirst($i) ? 'f' : ''}{isLast($i) ? 'l' : ''}{/for}", ""},
 	{"nullsafe-negation", "{-$m?.a} {-$m?.zz ?: 'dflt'} {$m?.a * 2} {not $m?.zz} {-(-$a)} {- -3}", "m a"},
 	{"let-in-untaken-branch", "{if $c}{let $s: 'shadow' /}{$s}{/if}{$s}{foreach $i in $l}{let $s: $i /}{$s}{/foreach}{$s}", "c s l"},
+	{"ifempty-outer-loop-var", "{foreach $j in $lm}{foreach $j in $e}x{ifempty}[{$j.s}]{/foreach}{let $j: $j.a + 1 /}{$j}{let $j}<{$j}>{/let}{$j};{/foreach}", "lm e"},
+	{"same-expression-in-different-scopes", "{if $c}{let $s: 'inner' /}{call .probe_callee}{param s: $s /}{/call}{call .probe_callee data=\"['s': $s]\" /}{/if}{call .probe_callee}{param s: $s /}{/call}{call .probe_callee data=\"['s': $s]\" /}" +
+		"{foreach $i in $ls}{let $s: $i /}{call .probe_callee}{param s: $s /}{/call}{foreach $q in [$s]}{$q}{/foreach}{$ls[length([$s]) - 1]}{/foreach}{call .probe_callee}{param s: $s /}{/call}{foreach $q in [$s]}{$q}{/foreach}{$ls[length([$s]) - 1]}", "c s ls"},
 	{"round", "{round(-2.5)} {round(2.5)} {round(-0.5)} {round(1.2345, 2)} {round(-1.2355, 3)} {round(1234, -2)}", ""},
 	{"quotes", "{$s} {$s|escapeHtml} {'\"q\" & \\'a\\''} {$t|truncate:4} {$t|truncate:8,false}", "s t"},
 	{"directive-order", "{$s|truncate:5|escapeHtml} {$s|escapeHtml|truncate:5} {$s|truncate:4|changeNewlineToBr} {$t|insertWordBreaks:2} {$t|changeNewlineToBr}", "s t"},
